@@ -75,6 +75,8 @@ class ChildScalar(np.lib.mixins.NDArrayOperatorsMixin):
             hparent = self.child.hparent
             filt_arr = hparent.filter.all
             self._array = hparent[self.feat][filt_arr]
+            # views of the cached array are handed out to the user
+            self._array.setflags(write=False)
         return np.array(self._array, dtype=dtype, copy=copy, *args, **kwargs)
 
     def __getitem__(self, idx):
